@@ -588,6 +588,7 @@ bool qtreetbl_getnext(qtreetbl_t *tbl, qtreetbl_obj_t *obj, const bool newmem) {
     uint8_t tid = obj->tid;
     if (obj->next == NULL) {  // first time call
         if (tbl->root == NULL) {
+            errno = ENOENT;
             return false;
         }
         // get a new iterator id
@@ -631,6 +632,7 @@ bool qtreetbl_getnext(qtreetbl_t *tbl, qtreetbl_obj_t *obj, const bool newmem) {
 
     // end of travel, reset iterator to allow iteration start over in next call
     reset_iterator(tbl);
+    errno = ENOENT;
     return false;
 }
 
